@@ -70,7 +70,9 @@ var kinds = []kind{
 	{"string", func(t *rapid.T) any { return strGen.Draw(t, "string") }, true},
 	{"[]int", func(t *rapid.T) any { return rapid.SliceOfN(rapid.IntRange(-1000, 1000), 0, 4).Draw(t, "ints") }, false},
 	{"[]string", func(t *rapid.T) any { return rapid.SliceOfN(strGen, 0, 3).Draw(t, "strs") }, false},
-	{"[]float64", func(t *rapid.T) any { return rapid.SliceOfN(rapid.SampledFrom([]float64{0, 1.5, -2.25, 10}), 0, 3).Draw(t, "floats") }, false},
+	{"[]float64", func(t *rapid.T) any {
+		return rapid.SliceOfN(rapid.SampledFrom([]float64{0, 1.5, -2.25, 10}), 0, 3).Draw(t, "floats")
+	}, false},
 	{"map[string]string", func(t *rapid.T) any {
 		return rapid.MapOfN(rapid.StringMatching(`[a-z]{1,3}`), strGen, 0, 3).Draw(t, "mss")
 	}, false},
@@ -274,12 +276,18 @@ func TestRoundTrip(t *testing.T) {
 			fields = append(fields, reflect.StructField{Name: "D", Type: typ, Tag: reflect.StructTag(`value:"${c17.key:` + d + `}"`)},
 				reflect.StructField{Name: "E", Type: typ, Tag: reflect.StructTag(`prop:"c17.key:` + d + `"`)})
 		}
+		// an optional value field that resolves to nothing, declared BEFORE the twins, must not disturb them
+		lead := 0
+		if rapid.IntRange(0, 2).Draw(t, "leadingoptional") == 0 {
+			fields = append([]reflect.StructField{{Name: "O", Type: reflect.TypeOf(""), Tag: `value:"${c17.absent:},required=false"`}}, fields...)
+			lead = 1
+		}
 		obj := reflect.New(reflect.StructOf(fields))
 		// now and then the fields already hold defaults that the configuration must replace, not merge into
 		prefilled := rapid.IntRange(0, 2).Draw(t, "prefill") == 0
 		if prefilled {
 			if pv, ok := prefillFor(typ); ok {
-				for i := 0; i < obj.Elem().NumField(); i++ {
+				for i := lead; i < obj.Elem().NumField(); i++ {
 					obj.Elem().Field(i).Set(pv())
 				}
 			} else {
@@ -310,7 +318,7 @@ func TestRoundTrip(t *testing.T) {
 			}
 			t.Fatalf("C17: binding %s failed: %v\nyaml:\n%s", desc, out, doc)
 		}
-		p, vv, q := obj.Elem().Field(0), obj.Elem().Field(1), obj.Elem().Field(2)
+		p, vv, q := obj.Elem().Field(lead+0), obj.Elem().Field(lead+1), obj.Elem().Field(lead+2)
 		if !reflect.DeepEqual(norm(p), norm(rv)) {
 			t.Fatalf("C17: prefix binding changed the value: configured %#v, field holds %#v\nyaml:\n%s", norm(rv), norm(p), doc)
 		}
@@ -331,7 +339,7 @@ func TestRoundTrip(t *testing.T) {
 		if !reflect.DeepEqual(norm(q), norm(p)) {
 			t.Fatalf("C17: prop:\"k\" binds %#v where prefix:\"k\" binds %#v (%s)\nyaml:\n%s", norm(q), norm(p), k.Name, doc)
 		}
-		for i := 3; i < obj.Elem().NumField(); i++ {
+		for i := lead + 3; i < obj.Elem().NumField(); i++ {
 			if !reflect.DeepEqual(norm(obj.Elem().Field(i)), norm(p)) {
 				t.Fatalf("C17: %s binds %#v where prefix:\"k\" binds %#v: the key is configured, its default must not apply (%s)\nyaml:\n%s", obj.Elem().Type().Field(i).Tag, norm(obj.Elem().Field(i)), norm(p), k.Name, doc)
 			}
@@ -530,7 +538,6 @@ func TestCrossType(t *testing.T) {
 		kit.Rec.Case(desc, true, "cross/"+fmt.Sprintf("%T->%s", v, typ))
 	})
 }
-
 
 // hasAnyNumber: a number sits in an interface-typed position somewhere inside v.
 func hasAnyNumber(v reflect.Value) bool {
